@@ -17,6 +17,7 @@ import (
 	"time"
 
 	"verifharness/internal/common"
+	"verifharness/internal/coqfmt"
 )
 
 type target struct {
@@ -34,7 +35,7 @@ func planted(id string) string {
 
 var targetDiagRE = regexp.MustCompile("^\\S+:\\d+:\\d+: captLocal: `IN_(\\w+)' should not be capitalized$")
 
-func targetStage(meta *common.Meta, tier, base, bin string) int {
+func targetStage(meta *common.Meta, tier, base, bin, outDir string) int {
 	dir := filepath.Join(base, "tg")
 	mk := func(class, id string, files map[string]string, arg string, analysable bool) target {
 		t := target{class: class, arg: arg, token: strings.Trim(strings.TrimSuffix(arg, "/..."), "./"), files: files}
@@ -203,7 +204,54 @@ func targetStage(meta *common.Meta, tier, base, bin string) int {
 		}
 	}
 	meta.Distribution["target_outcomes"] = outcomes
+	// model cases: the CLI step machine with the "every argument yields a package" input
+	var lines, idx []string
+	for _, j := range jobs {
+		if strings.HasSuffix(j.exe, "-analysis") || j.err != nil {
+			continue
+		}
+		yield := true
+		for _, t := range j.ts {
+			if t.group == "argument-yields-no-package" || t.group == "go-list-gives-up" {
+				yield = false
+			}
+		}
+		obs := "Ran"
+		if j.code != 0 && !targetDiagLine(j.out) {
+			step := ""
+			for _, s := range []string{"parse args", "load packages", "load program", "init checkers"} {
+				if strings.Contains(j.out, s+": ") {
+					step = s
+					break
+				}
+			}
+			obs = "(Fatal " + coqfmt.Str(step) + ")"
+		}
+		lines = append(lines, fmt.Sprintf("  ({| tc_base := {| args_parse_ok := true; load_ok := true; go_version_ok := true; selection_nonempty := true; first_ctor_error := false |}; tc_all_targets_yield := %s |}, %s)", coqfmt.Bool(yield), obs))
+		idx = append(idx, fmt.Sprintf("%s %v -> exit %d: %s", j.exe, j.args, j.code, firstLines(j.out, 1)))
+	}
+	common.WriteFile(filepath.Join(outDir, "cases_c19_targets.v"), "From GC Require Import Base Model_Init.\n"+`
+Definition oc_eqb (a b : cli_outcome) : bool :=
+  match a, b with
+  | Fatal x, Fatal y => String.eqb x y
+  | CliPanic x, CliPanic y => String.eqb x y
+  | Ran, Ran => true
+  | _, _ => false end.
+Definition case_ok (k : target_config * cli_outcome) : bool := oc_eqb (run_cli_targets (fst k)) (snd k).
+Definition cases : list (target_config * cli_outcome) := [
+`+strings.Join(lines, ";\n")+"\n].\nDefinition M := Eval vm_compute in mismatches case_ok cases.\nPrint M.\n")
+	common.WriteFile(filepath.Join(outDir, "cases_c19_targets.index.txt"), strings.Join(idx, "\n")+"\n")
+	meta.CaseFiles = append(meta.CaseFiles, "cases_c19_targets.v")
 	return len(jobs)
+}
+
+func targetDiagLine(out string) bool {
+	for _, l := range strings.Split(out, "\n") {
+		if targetDiagRE.MatchString(l) {
+			return true
+		}
+	}
+	return false
 }
 
 func otherGroup(ts []target) string {
